@@ -27,7 +27,8 @@ PROPS = {
     ),
     'C16': dict(
         level='proof',
-        contracts=['vf.contracts.poisson_tools'],
+        contracts=['vf.contracts.classes_c16'],
+        case_functions=[dict(module='vf.contracts.classes_c16', key='pygyro/poisson/poisson_solver.py::DensityFinder')],
         functions=[
             dict(key='pygyro/poisson/poisson_tools.py::get_perturbed_rho', gen='rho', n=(100, 2000)),
             dict(key='pygyro/poisson/poisson_tools.py::get_rho', gen='rho_plain', n=(100, 2000)),
@@ -68,7 +69,8 @@ PROPS = {
     ),
     'C11': dict(
         level='proof',
-        contracts=['vf.contracts.advection_kernels'],
+        contracts=['vf.contracts.classes'],
+        case_functions=[dict(module='vf.contracts.classes', key='pygyro/advection/advection.py::VParallelAdvection.step')],
         functions=[
             dict(key=ADV + '::general_v_parallel_advection_eval_step', gen='vpar_general', n=(300, 5000)),
             dict(key=ADV + '::v_parallel_advection_eval_step', gen='vpar_dispatch', n=(300, 5000)),
